@@ -87,7 +87,7 @@ pub fn singleton_remove__KEY_TMP_LIQUIDATOR(storage: &mut dyn Storage)
     ensures final(storage).view() == (Store { tmp_liquidator: None, ..old(storage).view() }),
 { unimplemented!() }
 
-// ---- position bucket: key = sha3_256(vamm bytes || trader bytes). NOT extracted (hash code): assumed to be a map keyed by
+// ---- position bucket: key = sha3_256(vamm bytes || trader bytes). the three accessors are extracted; the bucket is a map keyed by
 //      the concatenated byte string (sha3 collision-free). The concatenation itself is modelled faithfully: ("ab","c") and ("a","bc") alias. ----
 pub open spec fn default_position() -> Position {
     Position { vamm: Addr { s: Ghost(""@) }, trader: Addr { s: Ghost(""@) }, direction: Direction::AddToAmm,
@@ -97,20 +97,34 @@ pub open spec fn default_position() -> Position {
 pub open spec fn position_at(s: Store, vamm: Seq<char>, trader: Seq<char>) -> Position {
     if s.positions.contains_key(pkey(vamm, trader)) { s.positions[pkey(vamm, trader)] } else { default_position() }
 }
+// sha3::Sha3_256 through the Digest trait. The digest is identified with the byte string fed to the hasher: collision-freedom of
+// sha3-256 is the (standard) assumption, everything else - WHAT is fed, in which order, under which key the bucket is touched - is
+// read from the extracted functions.
+pub struct Sha3_256 { pub fed: Ghost<Seq<char>> }
+pub struct Sha3Digest { pub of: Ghost<Seq<char>> }
+impl Sha3_256 {
+    #[verifier::external_body]
+    pub fn new() -> (r: Sha3_256) ensures r.fed@ == Seq::<char>::empty(), { unimplemented!() }
+    #[verifier::external_body]
+    pub fn update(&mut self, data: AddrBytes) ensures final(self).fed@ == old(self).fed@ + data.k@, { unimplemented!() }
+    #[verifier::external_body]
+    pub fn finalize(self) -> (r: Sha3Digest) ensures r.of@ == self.fed@, { unimplemented!() }
+}
+// typed-cell primitives of the position bucket (cosmwasm_storage::Bucket<Position> under KEY_POSITION), keyed by a digest
 #[verifier::external_body]
-pub fn store_position(storage: &mut dyn Storage, position: &Position) -> (r: StdResult<()>)
+pub fn position_bucket_save(storage: &mut dyn Storage, key: &Sha3Digest, position: &Position) -> (r: StdResult<()>)
     ensures
         r is Ok,
-        r is Ok ==> final(storage).view() == (Store { positions: old(storage).view().positions.insert(pkey(position.vamm@, position.trader@), *position), ..old(storage).view() }),
-        r is Err ==> final(storage).view() == old(storage).view(),
+        final(storage).view() == (Store { positions: old(storage).view().positions.insert(key.of@, *position), ..old(storage).view() }),
 { unimplemented!() }
 #[verifier::external_body]
-pub fn remove_position(storage: &mut dyn Storage, position: &Position)
-    ensures final(storage).view() == (Store { positions: old(storage).view().positions.remove(pkey(position.vamm@, position.trader@)), ..old(storage).view() }),
+pub fn position_bucket_remove(storage: &mut dyn Storage, key: &Sha3Digest)
+    ensures final(storage).view() == (Store { positions: old(storage).view().positions.remove(key.of@), ..old(storage).view() }),
 { unimplemented!() }
+// a stored Position always deserialises (T4b)
 #[verifier::external_body]
-pub fn read_position(storage: &dyn Storage, vamm: &Addr, trader: &Addr) -> (r: StdResult<Position>)
-    ensures r is Ok, r->Ok_0 == position_at(storage.view(), vamm@, trader@),   // a stored Position always deserialises (T4b)
+pub fn position_bucket_may_load(storage: &dyn Storage, key: &Sha3Digest) -> (r: StdResult<Option<Position>>)
+    ensures r is Ok, r->Ok_0 == (if storage.view().positions.contains_key(key.of@) { Some(storage.view().positions[key.of@]) } else { None::<Position> }),
 { unimplemented!() }
 
 // ---- vamm-map bucket keyed by the vAMM address bytes ----
@@ -227,40 +241,73 @@ pub open spec fn qok_insurance_is_vamm(q: QuerierWrapper, insurance: Seq<char>, 
 // cosmwasm_std::BalanceResponse / cw20::BalanceResponse / cw20::Cw20QueryMsg (dependency types)
 pub struct BalanceResponse { pub amount: Coin }
 pub struct CW20BalanceResponse { pub balance: Uint128 }
-pub enum Cw20QueryMsg { Balance { address: String } }
+pub enum Cw20QueryMsg { Balance { address: String }, TokenInfo {} }
+pub struct TokenInfoResponse { pub decimals: u8 }   // cw20::TokenInfoResponse: only the field the repository reads
+// `denom.chars().next()`: the first character of the text, if any (std, T6)
+#[verifier::external_body]
+pub fn first_char(s: &String) -> (r: Option<char>)
+    ensures s@.len() == 0 ==> r is None, s@.len() > 0 ==> r == Some(s@[0]),
+{ unimplemented!() }
 
 // ---- closure / iterator / string functions outside the subset (T6) ----
-// utils::get_asset: funds attached in the collateral denom (native) or zero (cw20)
-pub uninterp spec fn sent_amount(funds: Seq<Coin>, denom: Seq<char>) -> Uint128;
+// funds attached in a given denom: the amount of the first coin of that denom, zero when there is none
+pub open spec fn first_coin_at(funds: Seq<Coin>, denom: Seq<char>, i: int) -> bool {
+    0 <= i < funds.len() && funds[i].denom@ == denom && forall|j: int| 0 <= j < i ==> (#[trigger] funds[j]).denom@ != denom
+}
+pub open spec fn sent_amount(funds: Seq<Coin>, denom: Seq<char>) -> Uint128 {
+    if exists|i: int| first_coin_at(funds, denom, i) { funds[choose|i: int| first_coin_at(funds, denom, i)].amount } else { Uint128(0) }
+}
+// `funds.iter().find(|x| x.denom == *denom)`: the first match (std Iterator::find, T6)
 #[verifier::external_body]
-pub fn get_asset(info: MessageInfo, eligible_collateral: AssetInfo) -> (r: Asset)
+pub fn find_coin<'a>(funds: &'a Vec<Coin>, denom: &String) -> (r: Option<&'a Coin>)
     ensures
-        r.info == eligible_collateral,
-        eligible_collateral is Token ==> r.amount.0 == 0,
-        eligible_collateral is NativeToken ==> r.amount == sent_amount(info.funds@, eligible_collateral->denom@),
+        r is Some <==> (exists|i: int| first_coin_at(funds@, denom@, i)),
+        r is Some ==> *r->Some_0 == funds@[choose|i: int| first_coin_at(funds@, denom@, i)],
 { unimplemented!() }
 
-// ---- reply plumbing (cosmwasm_std::Reply) and event parsing (utils::parse_swap / parse_pay_funding: iterator closures, T6) ----
-pub struct SubMsgResponse { pub events: Ghost<Seq<(Seq<char>, Seq<(Seq<char>, Seq<char>)>)>> }
+// ---- reply plumbing: cosmwasm_std::{Reply, SubMsgResult, SubMsgResponse, Event, Attribute} as plain data ----
+pub struct Attribute { pub key: String, pub value: String }
+pub struct Event { pub ty: String, pub attributes: Vec<Attribute> }
+pub struct SubMsgResponse { pub events: Vec<Event> }
 pub enum SubMsgResult { Ok(SubMsgResponse), Err(String) }
 pub struct Reply { pub id: u64, pub result: SubMsgResult }
-pub uninterp spec fn parsed_swap(resp: SubMsgResponse) -> (Uint128, Uint128);
-pub uninterp spec fn parsed_funding(resp: SubMsgResponse) -> (Integer, Seq<char>);
-#[verifier::external_body]
-pub fn parse_swap(response: SubMsgResponse) -> (r: StdResult<(Uint128, Uint128)>)
-    ensures r is Ok ==> r->Ok_0 == parsed_swap(response),
-{ unimplemented!() }
-#[verifier::external_body]
-pub fn parse_pay_funding(response: SubMsgResponse) -> (r: StdResult<(Integer, String)>)
-    ensures r is Ok ==> r->Ok_0.0 == parsed_funding(response).0 && r->Ok_0.1@ == parsed_funding(response).1,
-{ unimplemented!() }
 
-// ---- validate_eligible_collateral / AssetInfo::get_decimals (string matching / cw20 TokenInfo query, T6) ----
-#[verifier::external_body]
-pub fn validate_eligible_collateral(deps: Deps, input: String) -> (r: StdResult<AssetInfo>)
-{ unimplemented!() }
-impl AssetInfo {
-    #[verifier::external_body]
-    pub fn get_decimals(&self, deps: Deps) -> (r: StdResult<u8>)
-    { unimplemented!() }
+// "the first element that matches": what `iter().find(|x| x.field == wanted)` returns (std Iterator::find, T6)
+pub open spec fn first_event_at(ev: Seq<Event>, ty: Seq<char>, i: int) -> bool {
+    0 <= i < ev.len() && ev[i].ty@ == ty && forall|j: int| 0 <= j < i ==> (#[trigger] ev[j]).ty@ != ty
 }
+pub open spec fn first_attr_at(at: Seq<Attribute>, key: Seq<char>, i: int) -> bool {
+    0 <= i < at.len() && at[i].key@ == key && forall|j: int| 0 <= j < i ==> (#[trigger] at[j]).key@ != key
+}
+pub open spec fn has_event(ev: Seq<Event>, ty: Seq<char>) -> bool { exists|i: int| first_event_at(ev, ty, i) }
+pub open spec fn the_event(ev: Seq<Event>, ty: Seq<char>) -> Event { ev[choose|i: int| first_event_at(ev, ty, i)] }
+pub open spec fn has_attr(at: Seq<Attribute>, key: Seq<char>) -> bool { exists|i: int| first_attr_at(at, key, i) }
+pub open spec fn attr_value(at: Seq<Attribute>, key: Seq<char>) -> Seq<char> { at[choose|i: int| first_attr_at(at, key, i)].value@ }
+pub proof fn lemma_first_attr_unique(at: Seq<Attribute>, key: Seq<char>, i: int)
+    requires first_attr_at(at, key, i),
+    ensures has_attr(at, key), attr_value(at, key) == at[i].value@,
+{
+    let c = choose|c: int| first_attr_at(at, key, c);
+    if c < i { assert(at[c].key@ != key); } else if i < c { assert(at[i].key@ != key); }
+}
+pub proof fn lemma_first_event_unique(ev: Seq<Event>, ty: Seq<char>, i: int)
+    requires first_event_at(ev, ty, i),
+    ensures has_event(ev, ty), the_event(ev, ty) == ev[i],
+{
+    let c = choose|c: int| first_event_at(ev, ty, c);
+    if c < i { assert(ev[c].ty@ != ty); } else if i < c { assert(ev[i].ty@ != ty); }
+}
+#[verifier::external_body]
+pub fn find_event<'a>(events: &'a Vec<Event>, ty: &str) -> (r: Option<&'a Event>)
+    ensures r is Some <==> has_event(events@, ty@), r is Some ==> *r->Some_0 == the_event(events@, ty@),
+{ unimplemented!() }
+#[verifier::external_body]
+pub fn find_attribute<'a>(attributes: &'a Vec<Attribute>, key: &String) -> (r: Option<&'a Attribute>)
+    ensures r is Some <==> has_attr(attributes@, key@), r is Some ==> r->Some_0.value@ == attr_value(attributes@, key@) && r->Some_0.key@ == key@,
+{ unimplemented!() }
+// Integer::from_str is string code of margined_common (T6; its agreement with Display is conformance-tested in replay/t19)
+pub uninterp spec fn str_int(s: Seq<char>) -> Option<int>;
+#[verifier::external_body]
+pub fn integer_from_str(s: &str) -> (r: StdResult<Integer>)
+    ensures r is Ok <==> str_int(s@) is Some, r is Ok ==> r->Ok_0.to_int() == str_int(s@)->Some_0,
+{ unimplemented!() }
